@@ -262,7 +262,7 @@ var yamlNumberTypes = []string{"int", "int64", "float64"}
 
 func (c *Ctx) byteLimitOptions() {
 	p := c.P
-	fn := p.Fn("internal/plugins", "", "parseByteLimit")
+	fn := c.byteLimitParser()
 	construct := "plugins.parseByteLimit"
 	if fn == nil {
 		c.Missing("option-number-types", construct)
@@ -530,7 +530,7 @@ func checkC15(c *Ctx) {
 			return ""
 		})
 	// option parsing
-	pg := p.Fn("internal/plugins", "", "parseGzipConfig")
+	pg := c.gzipOptionParser()
 	if pg == nil {
 		c.Missing("option-number-types", "plugins.parseGzipConfig")
 	} else {
@@ -592,7 +592,7 @@ func checkC15(c *Ctx) {
 			})
 	}
 	// Accept-Encoding token test
-	cg := p.Fn("internal/plugins", "", "containsGzip")
+	cg := c.acceptEncodingFn()
 	if cg == nil {
 		c.Missing("accept-encoding-token", "plugins.containsGzip")
 	} else {
@@ -636,11 +636,11 @@ func (c *Ctx) bufferStartsEmpty(w *Wrapper) {
 			t := st.Field(i).Type()
 			if pt, isPtr := t.Underlying().(*types.Pointer); isPtr {
 				if QualType(namedOf(pt.Elem())) == "bytes.Buffer" {
-					bufField[w.Key+"."+st.Field(i).Name()] = true
+					bufField[w.Key+"."+canonFieldName(w.Named, st.Field(i).Name())] = true
 					ptrBuf = true
 				}
 			} else if QualType(namedOf(t)) == "bytes.Buffer" {
-				bufField[w.Key+"."+st.Field(i).Name()] = true
+				bufField[w.Key+"."+canonFieldName(w.Named, st.Field(i).Name())] = true
 			}
 		}
 	}
